@@ -4,6 +4,7 @@ from concurrent.futures import ThreadPoolExecutor
 
 sys.path.insert(0, os.path.dirname(os.path.abspath(__file__)))
 import vbuild
+import vprops
 from vprops import PROPS, FINDINGS_FILE
 
 VERIF = vbuild.VERIF
@@ -162,6 +163,8 @@ class Check:
             first = open(path, errors="replace").readline()
         except OSError:
             return None
+        if "engine=JOB" in first:
+            return self.job_pseudo(path)
         for job in self.cfg["jobs"]:
             tag = job.get("engine_tag")
             if tag and ("engine=" + tag) in first:
@@ -185,6 +188,7 @@ class Check:
             cmd, env = job["cmd"](self.exe(job["target"]) if job.get("target") else None, self.prop, self.tier, seed, inst, out, self.rundir, excluded)
             rc, text, dt = run(cmd, env=env, timeout=job.get("timeout", {}).get(self.tier, 3600))
             open(os.path.join(self.rundir, "job%d.log" % i), "w").write(text)
+            self.jobcmd[i] = (cmd, env)
             return i, job, inst, rc, text, dt, out
         par = self.cfg.get("parallel", {}).get(self.tier, 8)
         with ThreadPoolExecutor(max_workers=par) as ex:
@@ -236,6 +240,10 @@ class Check:
                         tail = [l for l in text.splitlines() if "ERROR" in l or "runtime error" in l or "SUMMARY" in l]
                         self.keep(m, "sanitizer/crash: " + (tail[0][:200] if tail else "rc=%d" % rc))
                         continue
+                jr = self.job_replay_file(i, job, rc, text) if rc != 1 else None
+                if jr:
+                    self.keep(jr[0], "sanitizer/crash (whole job, not reproducible from one case): " + jr[1])
+                    continue
                 self.inconclusive.append("job %d (%s) ended rc=%d and no saved case reproduces it; log build/run/%s/job%d.log" % (i, job.get("name"), rc, self.prop, i))
                 self.harness_error = True
                 continue
@@ -243,6 +251,35 @@ class Check:
             self.harness_error = True
 
     harness_error = False
+    jobcmd = {}
+
+    # ---- whole-job reproduction ------------------------------------------------------
+    # A crash that the case in progress does not reproduce on its own (something an earlier case of the same process left
+    # behind) is still deterministic: the generators are pure functions of the seed. The job is run a second time; if it
+    # ends the same way, the job itself (engine, arguments, environment) is saved as the replay file.
+    def job_replay_file(self, i, job, rc, text):
+        cmd, env = self.jobcmd.get(i, (None, None))
+        if not cmd or not job.get("target") or "fuzz" in job.get("target", ""):
+            return None
+        rc2, text2, _ = run(cmd, env=env, timeout=job.get("timeout", {}).get(self.tier, 3600))
+        if not (rc2 == CRASH_RC or (rc2 < 0 and rc2 != -9)):
+            return None
+        exe = self.exe(job["target"])
+        args = ["{exe}" if a == exe else a.replace(self.rundir, "{rundir}") for a in cmd]
+        tail = [l for l in text2.splitlines() if "ERROR" in l or "runtime error" in l or "SUMMARY" in l or "terminate called" in l]
+        body = "# engine=JOB prop=%s\n# the whole job is the reproduction: it ended abnormally twice (rc=%d, rc=%d) and the case in progress does not fail on its own\n# %s\n%s\n" % (
+            self.prop, rc, rc2, (tail[0][:200] if tail else ""), json.dumps(dict(target=job["target"], args=args, env=env or {})))
+        path = os.path.join(self.rundir, "job_fail.%d.txt" % i)
+        open(path, "w").write(body)
+        return path, (tail[0][:200] if tail else "rc=%d" % rc2)
+
+    def job_pseudo(self, path):
+        """replay 'job' for a saved whole-job reproduction"""
+        spec = json.loads([l for l in open(path).read().splitlines() if l.startswith("{")][0])
+        def replay(exe, prop, p):
+            rd = vprops.replay_dir(prop)
+            return [vbuild.build(spec["target"], quiet=True) if a == "{exe}" else a.replace("{rundir}", rd) for a in spec["args"]]
+        return dict(name="whole job", target=None, replay=replay, env=spec.get("env") or None, replay_timeout=3600)
 
     # ---- evidence --------------------------------------------------------------------
     def write_evidence(self, wall, nreplays):
